@@ -107,6 +107,9 @@ class World:
                 src = self.store[op[1]]
                 if not src:
                     break  # only possible when the code under test shares dictionaries: stop here, the prefix is still judged
+                if any(isinstance(v, dict) for v in src.values()):
+                    # a formatter() mapping (directive -> {"regex", "value"}) handed out earlier: a class is made from its texts
+                    src = {k: (v["value"] if isinstance(v, dict) else v) for k, v in src.items()}
                 snap = dict(src)
                 C = dict2const(src, op[2]) if len(self.classes) % 2 == 0 else make_const(name=op[2], formatter=src)
                 self.classes.append((C, snap))
@@ -120,7 +123,8 @@ class World:
                     else:
                         d0 = next(iter(snap))
                         inst = C.parse(snap[d0], d0)
-                        d = inst.values() if len(self.store) % 2 == 0 else {a: b["value"] for a, b in C.formatter().items()}
+                        which = len(self.store) % 3
+                        d = inst.values() if which == 0 else ({a: b["value"] for a, b in C.formatter().items()} if which == 1 else C.formatter())
                 except Exception as e:  # noqa: BLE001 - by the property the class still accepts its frozen text here
                     if sw is not None:
                         sw.check(False, "a constant class is not frozen: after this history it no longer accepts its own frozen text (asking for values()/regex() fails)",
@@ -132,7 +136,13 @@ class World:
             elif k == "S":
                 h = op[1]
                 if h < len(self.store) and self.store[h] is not None:
-                    self.store[h][op[2]] = op[3]
+                    cur = self.store[h].get(op[2])
+                    if isinstance(cur, dict):
+                        # a formatter() mapping: edit the nested dictionary the caller was handed
+                        cur["value"] = op[3]
+                        cur["regex"] = "(?P<x>" + op[3] + ")"
+                    else:
+                        self.store[h][op[2]] = op[3]
                 lines.append(f"S,{h},{esc(op[2])},{esc(op[3])}")
             elif k == "D":
                 h = op[1]
@@ -228,6 +238,42 @@ def sweep_to_const(sw, r, tier):
             sw.check(C.regex() == snap_regex, "mutating values() of the instance reaches the class", {**case0, "clause": "toconst-frozen"}, None, None)
 
 
+def sweep_make_const(sw, r, tier):
+    """make_const(fmt=Class, value=v): frozen to the renderings of v under every directive of the class"""
+    from fmtutil import Version, Serial, Storage, Naming
+    cases = [(Version, s, f) for s, f in (("2!1.2.3rc1.post4.dev5+abc.1", "%e%m.%n.%c%q.%p.%d%l"), ("1!0.9.10b2+x", "%e%m.%n.%c%q%l"), ("3.2.1.post7+loc", "%m.%n.%c.%p%l"))]
+    for cls, text, fmt in cases:
+        ref = cls.parse(text, fmt)
+        vals = ref.values()
+        try:
+            C = make_const(fmt=cls, value=text)
+        except Exception as e:  # noqa: BLE001
+            sw.check(False, "make_const(fmt=…, value=…) fails", {"clause": "make-const", "cls": cls.__name__, "value": text}, None, f"{type(e).__name__}: {e}")
+            continue
+        for d, want in vals.items():
+            if not isinstance(want, str) or want == "":
+                continue
+            sw.note(["make_const", cls.__name__, text, d], "make-const")
+            got = outcome_text(lambda: C.parse(want, d).format(d))
+            sw.check(got == "ok:" + esc(want), "a class made by make_const(fmt=…, value=…) does not accept / render the value's own rendering", {"clause": "make-const", "cls": cls.__name__, "value": text, "directive": d, "text": want}, want, got)
+    for c in ("serial", "storage", "naming"):
+        for _ in range(5 if tier == "quick" else 40):
+            x = gen_fmt.value_of(c, r)
+            cls = gen_fmt.CLASSES[c]
+            try:
+                vals = gen_fmt.make_obj(c, x).values()
+                C = make_const(fmt=cls, value=x)
+            except Exception as e:  # noqa: BLE001
+                sw.check(False, "make_const(fmt=…, value=…) fails", {"clause": "make-const", "cls": c, "value": str(x)}, None, f"{type(e).__name__}: {e}")
+                continue
+            for d, want in vals.items():
+                if not isinstance(want, str) or want == "":
+                    continue
+                sw.note(["make_const", c, str(x), d], "make-const")
+                got = outcome_text(lambda: C.parse(want, d).format(d))
+                sw.check(got == "ok:" + esc(want), "a class made by make_const(fmt=…, value=…) does not accept / render the value's own rendering", {"clause": "make-const", "cls": c, "value": str(x), "directive": d, "text": want}, want, got)
+
+
 def sweep_mappings(sw, r, tier):
     n = 400 if tier == "quick" else 3000
     for _ in range(n):
@@ -302,6 +348,7 @@ def sweep(tier: str) -> Sweep:
     sw = Sweep("C15")
     sweep_histories(sw, r, tier)
     sweep_to_const(sw, r, tier)
+    sweep_make_const(sw, r, tier)
     sweep_mappings(sw, r, tier)
     sweep_groups(sw, r, tier)
     return sw
